@@ -192,13 +192,16 @@ func (t *Tree) parseRightTestOperand(prev *NameExpr) (*TestExpr, error) {
 	switch r := right.(type) {
 	case *NameExpr:
 		if prev != nil {
+			// A two-word test begins at its first word.
 			r.Name = prev.Name + " " + r.Name
+			r.Pos = prev.Pos
 		}
 		return NewTestExpr(r.Name, []Expr{}, r.Pos), nil
 
 	case *FuncExpr:
 		if prev != nil {
 			r.Name = prev.Name + " " + r.Name
+			r.Pos = prev.Pos
 		}
 		return &TestExpr{r}, nil
 	default:
